@@ -114,6 +114,9 @@ type Interp struct {
 	numCPU  int
 	allowCrash bool
 	stdout  []*Term
+	stdoutIsFile bool // os.Stdout stands for a regular file (size limit applies)
+	fsizeLimit   int
+	fsizeLimitOn bool
 	vfs     map[string]*HostObj
 	stdin   []Value
 	curFn   *ssa.Function
